@@ -6,7 +6,7 @@
 (*   hb : universe before apply  (source tree `src` and the working clone)  *)
 (*   ha : universe after apply   (same object numbering, new objects added) *)
 (***************************************************************************)
-EXTENDS ExprHeap
+EXTENDS ExprHeap, Printer
 
 \* sibling subtrees hanging off the path stay identical; descent follows the path
 RECURSIVE CtxOK(_,_,_)
@@ -96,12 +96,16 @@ StepVerdict(e, fValue, fSol, fRt) ==
 (* e: answers of used rule objects vs brand-new rule objects on the identical tree (C06) *)
 ReprobeVerdict(e) == IF e.used = e.fresh THEN {} ELSE {"answer_depends_on_rule_history"}
 
+RECURSIVE AllPrintable(_)
+AllPrintable(t) == CASE t.k = "c" -> Printable(t) [] t.k = "v" -> t.id < 128 [] IsUn(t.k) -> AllPrintable(t.c) [] OTHER -> AllPrintable(t.l) /\ AllPrintable(t.r)
+
 (* e: a recorded str(tree) of a tree the parser produced, parsed back with the real parser (C04) *)
 PrintVerdict(e) ==
   IF ~KnownKinds(e.t) \/ ~Finite(e.t) THEN {} ELSE
   IF e.reparse # "ok" THEN {"roundtrip"} ELSE
   IF ~KnownKinds(e.re) THEN {"roundtrip"} ELSE
   (IF Same(e.t, e.re) /\ Vars(e.t) = Vars(e.re) THEN {} ELSE {"roundtrip"})
+  \cup (IF AllPrintable(e.t) /\ e.pc # PrintText(e.t) THEN {"drift_printer_model"} ELSE {})
 
 (* e: a recorded probe of one rule on one tree (C06: the applicability check is pure; searches agree with it) *)
 ProbeVerdict(e) ==
